@@ -119,6 +119,16 @@ def f8(x, *, k=7.26):
     return r_f8(x, k=k)
 
 
+def r_f9(x, y, z=3):
+    return _res('f9(%r,%r,%r)' % (_R(x), _R(y), _R(z)))
+
+
+def f9(x, y, z=3):
+    # two required parameters (ignore specs naming several parameters without default)
+    _enter('f9', show((x, y, z)))
+    return r_f9(x, y, z)
+
+
 def f1(x):
     _enter('f1', show((x,)))
     return r_f1(x)
@@ -150,7 +160,7 @@ def f6(x, y=2, *a, **kw):
 
 
 FUNCS = {'f1': (f1, r_f1), 'f2': (f2, r_f2), 'f3': (f3, r_f3),
-         'f4': (f4, r_f4), 'f5': (f5, r_f5), 'f6': (f6, r_f6), 'f7': (f7, r_f7), 'f8': (f8, r_f8)}
+         'f4': (f4, r_f4), 'f5': (f5, r_f5), 'f6': (f6, r_f6), 'f7': (f7, r_f7), 'f8': (f8, r_f8), 'f9': (f9, r_f9)}
 # signature twins: f7 is spelled like f2, f8 like f4 (they differ in the default value only)
 SHAPE = {'f7': 'f2', 'f8': 'f4'}
 DEFAULTS = {'f2': ('y', 2), 'f6': ('y', 2), 'f4': ('k', 1), 'f7': ('y', 7.26), 'f8': ('k', 7.26)}
@@ -211,7 +221,7 @@ def gen_config(rng, prop, tier):
         if prop != 'C05':
             maxsize_pos = False       # the positional spelling of 0/None is C05's business
     purge = rng.chance(0.3) and prop != 'C06'
-    fn = rng.weighted([(3, 'f1'), (4, 'f2'), (2, 'f3'), (2, 'f4'), (2, 'f5'), (2, 'f6'), (1, 'f7'), (1, 'f8')])
+    fn = rng.weighted([(3, 'f1'), (4, 'f2'), (2, 'f3'), (2, 'f4'), (2, 'f5'), (2, 'f6'), (1, 'f7'), (1, 'f8'), (1, 'f9')])
     # backend
     labels = [None, None, 'dict', 'dict', 'null', 'file-pkl', 'file-json', 'file-src',
               'dir-pkl', 'dir-json', 'dir-fast', 'dir-z', 'dir-mmap', 'dir-src',
@@ -256,6 +266,8 @@ def gen_config(rng, prop, tier):
        and not (label in ('file-src', 'dir-src') and km['kind'] == 'raw'):
         if fn in ('f2', 'f6', 'f7') and rng.chance(0.5):
             cfg['ignore'] = rng.choice(['y', 1, ['y'], ['x']])
+        elif fn == 'f9' and rng.chance(0.6):
+            cfg['ignore'] = rng.choice([['x', 'y'], 'y', ['y', 'z'], ['z', 'x'], [0, 1]])
         elif fn in ('f3',) and rng.chance(0.5):
             cfg['ignore'] = '*'
         elif fn in ('f5',) and rng.chance(0.5):
@@ -284,6 +296,10 @@ def logical_call(rng, fn, pool, tuples_ok):
         c['a'] = [rng.choice(pool) for _ in range(rng.randint(1, 2))]
     if fn == 'f4' and rng.chance(0.5):
         c['k'] = rng.choice(pool[:3] + [dflt])
+    if fn == 'f9':
+        c['y'] = rng.choice(pool[:4])
+        if rng.chance(0.5):
+            c['z'] = rng.choice(pool[:3] + [3])
     if fn in ('f5', 'f6') and rng.chance(0.5):
         names = rng.sample(KW_NAMES, rng.randint(1, 2))
         c['kw'] = [[n, rng.choice(pool[:4])] for n in names]
@@ -317,6 +333,24 @@ def spell(rng, fn, c):
             if 'y' in c:
                 kw.append(['y', c['y']])
             kw.append(['x', c['x']])
+    elif fn == 'f9':
+        form = rng.below(4)
+        if form == 0:
+            args.extend([c['x'], c['y']])
+        elif form == 1:
+            args.append(c['x'])
+            kw.append(['y', c['y']])
+        elif form == 2:
+            kw.extend([['x', c['x']], ['y', c['y']]])
+        else:
+            kw.extend([['y', c['y']], ['x', c['x']]])
+        if 'z' in c:
+            if form == 0 and rng.chance(0.5):
+                args.append(c['z'])
+            elif rng.chance(0.5):
+                kw.append(['z', c['z']])
+            else:
+                kw.insert(0, ['z', c['z']])
     elif fn == 'f3':
         args.append(c['x'])
         args.extend(c.get('a', []))
